@@ -256,8 +256,8 @@ def ball_footprint(M, r="$r", radius="radius", binds=None):
     import itertools
     b0 = dict(binds or {})
     grids = [
-        ([f"$z, $y, $x = np.indices((2 * {r} + 1,) * 3)"], ("($z - {r}) ** 2", "($y - {r}) ** 2", "($x - {r}) ** 2")),
-        ([f"$z, $y, $x = np.indices((2 * {r} + 1, 2 * {r} + 1, 2 * {r} + 1))"], ("($z - {r}) ** 2", "($y - {r}) ** 2", "($x - {r}) ** 2")),
+        ([f"$z, $y, $x = np.indices((2 * {r} + 1,) * 3, ...)"], ("($z - {r}) ** 2", "($y - {r}) ** 2", "($x - {r}) ** 2")),
+        ([f"$z, $y, $x = np.indices((2 * {r} + 1, 2 * {r} + 1, 2 * {r} + 1), ...)"], ("($z - {r}) ** 2", "($y - {r}) ** 2", "($x - {r}) ** 2")),
         ([f"$z, $y, $x = np.ogrid[slice(-{r}, {r} + 1), slice(-{r}, {r} + 1), slice(-{r}, {r} + 1)]"], ("$z ** 2", "$y ** 2", "$x ** 2")),
         ([f"$z, $y, $x = np.ogrid[-{r}:{r} + 1, -{r}:{r} + 1, -{r}:{r} + 1]"], ("$z ** 2", "$y ** 2", "$x ** 2")),
         ([f"$z, $y, $x = np.mgrid[-{r}:{r} + 1, -{r}:{r} + 1, -{r}:{r} + 1]"], ("$z ** 2", "$y ** 2", "$x ** 2")),
